@@ -69,7 +69,7 @@ CFG = {
                   "(quirk_is_replace_colon, quirk_strings, quirk_prints_legacy_forms: legacy = true is what quirks.go does; legacy_quirk_no_effect_ssEncode from the extracted mutability facts; nine "
                   "legacy_quirk_<producer>_<consumer> at token and byte level; legacy_quirk_roundtrip_*; render_frame_read_bytes / legacy_quirk_frame: a rendered frame's SGR+text bytes read back by all three "
                   "consumers under every capability setting); hyperlinks: LinksRestorable is EXACT (roundtrip_ss_links_iff, roundtrip_cells_links_via_ss_iff, links_restorable_iff_clauses).",
-    "level_note": "Proved for all inputs on the model (160 theorems, axioms propext/Classical.choice/Quot.sound only). Fixed in /repo: F48, F35 (round 1), "
+    "level_note": "Proved for all inputs on the model (161 theorems, axioms propext/Classical.choice/Quot.sound only). Fixed in /repo: F48, F35 (round 1), "
                   "F118, F119, F121 (round 2), F122 (round 3: ParseStyledString split a grapheme that straddled the parser's 4096-byte buffer; it now buffers the whole "
                   "string; parse_chunked_cuts_cluster shows the old reader failing on the model). Validated by correspondence only: that the byte-level model is the code "
                   "(encb / encbl: exact producer strings; decb: both string parsers on exact strings incl. junk parameter texts, with the uniseg cluster table, and the "
